@@ -2397,3 +2397,128 @@ func init() {
 			return out
 		}})
 }
+
+// ---- ROTNORM
+//
+// The evaluation of a linear transformation rotates by the diagonal indexes *reduced modulo the number of slots* (the
+// keys of the encoded matrix are produced by BSGSIndex, which normalises them). The list of Galois elements advertised
+// for the transformation must be computed from the same normalised indexes: 5^k and 5^(k mod slots) are different
+// Galois elements as soon as the packing is sparse (slots < N/2) or k is negative.
+//
+// Rule: in the lintrans packages, no call of GaloisElement / GaloisElements receives a value derived from a parameter
+// holding raw diagonal indexes ([]int named *diag*) other than through the results of BSGSIndex.
+
+func scanRotNorm(c *core.Ctx) []ob {
+	var out []ob
+	n := 0
+	c.FuncDecls(func(pk *packages.Package, file *ast.File, fd *ast.FuncDecl) {
+		rel := core.ShortPkg(pk.PkgPath)
+		if fd.Body == nil || fileIsTestSupport(c.Program, fd.Pos()) || !(c.IsFixture || strings.Contains(rel, "lintrans")) {
+			return
+		}
+		info := pk.TypesInfo
+		raw := map[types.Object]bool{}
+		if fn, ok := info.Defs[fd.Name].(*types.Func); ok {
+			sig := fn.Type().(*types.Signature)
+			for i := 0; i < sig.Params().Len(); i++ {
+				p := sig.Params().At(i)
+				if sl, ok := p.Type().Underlying().(*types.Slice); ok {
+					if b, ok := sl.Elem().Underlying().(*types.Basic); ok && b.Kind() == types.Int && strings.Contains(strings.ToLower(p.Name()), "diag") {
+						raw[p] = true
+					}
+				}
+			}
+		}
+		if len(raw) == 0 {
+			return
+		}
+		mentionsRaw := func(e ast.Node) bool {
+			found := false
+			ast.Inspect(e, func(x ast.Node) bool {
+				if call, ok := x.(*ast.CallExpr); ok && calleeName(info, call) == "BSGSIndex" {
+					return false // normalised behind this call
+				}
+				if id, ok := x.(*ast.Ident); ok && raw[info.Uses[id]] {
+					found = true
+				}
+				return !found
+			})
+			return found
+		}
+		// propagate through local definitions and range variables
+		for iter := 0; iter < 4; iter++ {
+			ast.Inspect(fd.Body, func(x ast.Node) bool {
+				switch v := x.(type) {
+				case *ast.AssignStmt:
+					if len(v.Rhs) == 1 {
+						if call, ok := unparen(v.Rhs[0]).(*ast.CallExpr); ok && calleeName(info, call) == "BSGSIndex" {
+							return true
+						}
+					}
+					for i, l := range v.Lhs {
+						var rhs ast.Expr
+						if len(v.Rhs) == len(v.Lhs) {
+							rhs = v.Rhs[i]
+						} else if len(v.Rhs) == 1 {
+							rhs = v.Rhs[0]
+						}
+						if rhs != nil && mentionsRaw(rhs) {
+							if o := identObj(info, l); o != nil {
+								raw[o] = true
+							}
+						}
+					}
+				case *ast.RangeStmt:
+					if mentionsRaw(v.X) {
+						for _, kv := range []ast.Expr{v.Key, v.Value} {
+							if kv != nil {
+								if o := identObj(info, kv); o != nil {
+									raw[o] = true
+								}
+							}
+						}
+					}
+				}
+				return true
+			})
+		}
+		fkey := core.FuncKey(pk, fd)
+		ast.Inspect(fd.Body, func(x ast.Node) bool {
+			call, ok := x.(*ast.CallExpr)
+			if !ok {
+				return true
+			}
+			nm := calleeName(info, call)
+			if nm != "GaloisElement" && nm != "GaloisElements" {
+				return true
+			}
+			n++
+			key := fmt.Sprintf("ROTNORM:%s#%s", fkey, nm)
+			bad := false
+			for _, a := range call.Args {
+				if mentionsRaw(a) {
+					bad = true
+				}
+			}
+			if bad {
+				out = append(out, violOb("ROTNORM", key, c.Rel(call.Pos()), fmt.Sprintf("%s computes Galois elements from the raw diagonal indexes (%s) instead of the rotations returned by BSGSIndex: for sparse packing or negative indexes the advertised keys are not the ones the evaluation asks for", fkey, exprString(call))))
+			} else {
+				out = append(out, okOb("ROTNORM", key, c.Rel(call.Pos()), "the Galois elements are computed from the normalised rotations", true))
+			}
+			return true
+		})
+	})
+	c.Stats["rotnorm_sites"] = n
+	return out
+}
+
+func init() {
+	core.Register(&core.Rule{Name: "ROTNORM", Props: []string{"C12", "C11"},
+		Doc: "in the lintrans packages, Galois elements are never computed from the raw diagonal indexes of a []int parameter but from the rotations normalised by BSGSIndex",
+		Run: func(c *core.Ctx) []ob {
+			out := scanRotNorm(c)
+			out = append(out, control(c, "ROTNORM", scanRotNorm, "lvfixture.galoisForDiags")...)
+			out = append(out, core.Floor("ROTNORM", nil, "Galois element computations next to raw diagonal indexes", c.Stats["rotnorm_sites"], 2)...)
+			return out
+		}})
+}
